@@ -9,10 +9,10 @@ PROPS = {
     "C20": dict(extra_props=["Props/GoTieC20.v"], coq_scan=["Generated/GoPrelude.v", "Generated/GoEvents.v", "Base/GoTieLib.v", "Events/GoTieRing.v", "Props/GoTieC20.v"]),
     "C19": dict(extra_props=["Props/GoTieC19.v"], coq_scan=_G3 + ["Base/GoTieLib.v", "Sort/GoTieSort.v", "Props/GoTieC19.v"]),
     "C11": dict(extra_props=["Props/GoTieC11.v"], coq_scan=_G3 + ["Base/GoTieLib.v", "Core/GoTieC11.v", "Props/GoTieC11.v"]),
-    "C09": dict(extra_props=["Props/C09d.v", "Props/GoTieC09.v"], coq_scan=_G3 + ["Base/GoTieLib.v", "Core/GoTieC09.v", "Props/GoTieC09.v", "Props/C09d.v", "Core/Model.v", "Core/Model2.v", "Core/Model4.v", "Core/Ledger.v"] + ["Core/Model4Proofs%s.v" % x for x in ["F", "N", "N2", "G", "B", "B2", "R1", "R2", "R3", "R4", "R5", "R6", "R7", "R8", "R9", "R10", "R11", "R12", "Ex", "ExN"]]),
+    "C09": dict(extra_props=["Props/C09d.v", "Props/C09e.v", "Props/GoTieC09.v"], coq_scan=_G3 + ["Base/GoTieLib.v", "Core/GoTieC09.v", "Props/GoTieC09.v", "Props/C09d.v", "Core/Model.v", "Core/Model2.v", "Core/Model4.v", "Core/Ledger.v"] + ["Core/Model4Proofs%s.v" % x for x in ["F", "N", "N2", "G", "B", "B2", "R1", "R2", "R3", "R4", "R5", "R6", "R7", "R8", "R9", "R10", "R11", "R12", "Ex", "ExN", "Br1", "Br2", "Br3", "Br4", "Br5", "Br6"]] + ["Props/C09e.v"]),
     "C07": dict(extra_props=["Props/GoTieC07.v"], coq_scan=_G3 + ["Base/GoTieLib.v", "Core/GoTieC07.v", "Props/GoTieC07.v"]),
     "C05": dict(extra_props=["Props/GoTieC05.v"], coq_scan=["Generated/GoPrelude.v", "Generated/GoResources.v", "Generated/GoUgm.v", "Base/GoTieLib.v", "Base/GoTieRep.v", "Base/GoTieClone.v", "Base/GoTieRes.v", "Base/GoTiePred.v", "Base/GoTieCw.v", "Core/GoTieC05.v", "Props/GoTieC05.v"]),
     "C01": dict(extra_props=["Props/C01c.v", "Props/C01d.v", "Props/GoTieC01.v"], coq_scan=_G3 + ["Props/C01c.v", "Props/C01d.v", "Props/GoTieC01.v"]),
     "C02": dict(extra_props=["Props/GoTieC02.v"], coq_scan=_G3 + ["Props/GoTieC02.v"]),
-    "C03": dict(extra_props=["Props/C03c.v", "Props/C03d.v", "Props/GoTieC03.v"], coq_scan=_G3 + ["Props/C03c.v", "Props/C03d.v", "Props/GoTieC03.v"]),
+    "C03": dict(extra_props=["Props/C03c.v", "Props/C03d.v", "Props/C03e.v", "Props/GoTieC03.v"], coq_scan=_G3 + ["Props/C03c.v", "Props/C03d.v", "Props/C03e.v", "Props/GoTieC03.v"]),
 }
